@@ -354,6 +354,27 @@ func pausedCreate(o *hc.Out, bin, scratch string) {
 			rep["state"] = st
 			o.Law("control_files_left", rep)
 		}
+		// the same race in the model: the regenerated NewHandlerForCreate (Model/Retry.lean runCreate), H = the held process
+		if reached {
+			cls := "before" // H has not created its .lock yet
+			if point == "lock.recheck#1" || point == "create.open#1" {
+				cls = "after"
+			}
+			word := func(e error) string {
+				if e == nil {
+					return "ok"
+				}
+				return "err"
+			}
+			table := "none"
+			switch {
+			case rerr == nil && string(b) == "a,b\n9,9\n":
+				table = "H"
+			case rerr == nil && string(b) == "a,b\n1,2\n3,4\n":
+				table = "S"
+			}
+			o.Case("c09.createrace "+cls, fmt.Sprintf("H:%s S:%s table:%s", word(r1.err), word(err2), table))
+		}
 		o.Eval()
 		o.NonTrivial(fmt.Sprintf("pausedcreate:%s:%v:%v", point, err2 == nil, r1.err == nil))
 		_ = os.RemoveAll(d)
@@ -531,6 +552,7 @@ func run(seed int64, n int, dir string, _ []string) {
 		pausedCreate(o, bin, scratch)
 		accessForms(o, bin, scratch)
 		heldAtStep(o, bin, scratch) // giveup.go: the waiting time / a signal ends inside the successful attempt
+		pausedRelease(o, bin, scratch) // giveup.go: another process arrives between two release steps
 	}
 	lockTimeouts(o, scratch, 2+n/100)
 	giveUpInProcess(o, scratch)
